@@ -58,7 +58,7 @@ def build(prop, tier, seed, hs, names, per_h, violations, harness_errors, known_
 
 
 def write(prop, ev):
-    d = os.path.join(ROOT, 'evidence')
+    d = os.environ.get('VP_EVIDENCE_DIR') or os.path.join(ROOT, 'evidence')
     os.makedirs(d, exist_ok=True)
     tmp = os.path.join(d, prop + '.json.tmp')
     with open(tmp, 'w') as f:
